@@ -15,8 +15,9 @@
                                              match write_lock.call_mut(..) { Async(f) => return f.await, .. }
                                          ObjectServer::at / remove:   let mut root = self.root.write().await; ..  (to the end)
                                          ObjectServer::interface:     let root = self.root().read().await; .. lock.read().await ..
-     zbus/src/fdo/properties.rs          Properties::get / set / get_all:
-                                             let root = server.root().read().await;          (kept to the end of the function)
+     zbus/src/fdo/properties.rs          Properties::get / set / get_all (as repaired by /repo commit d9501501):
+                                             let iface = { let root = server.root().read().await; look the interface up };
+                                                                                              (root guard dropped at once)
                                              iface.instance.read().await.get(..).await   /   .set(..) -> Async(f) => f.await
                                              / RequiresMut => iface.instance.write().await.set_mut(..).await
      zbus/src/fdo/introspectable.rs      Introspectable::introspect:  root read guard kept while every interface of the
@@ -98,14 +99,14 @@ Definition body (c : call) : list instr :=
   | KRef => [IRead (L_iface k)] ++ handler c ++ [reply; IRUnlock (L_iface k)]
   | KMut => [IRead (L_iface k); IRUnlock (L_iface k); IWrite (L_iface k)] ++ handler c ++ [reply; IWUnlock (L_iface k)]
   | KGet | KSetRef =>
-      [IRead (L_props k); IRead L_root; IRead (L_iface k)] ++ handler c
-      ++ [IRUnlock (L_iface k); IRUnlock L_root; reply; IRUnlock (L_props k)]
+      [IRead (L_props k); IRead L_root; IRUnlock L_root; IRead (L_iface k)] ++ handler c
+      ++ [IRUnlock (L_iface k); reply; IRUnlock (L_props k)]
   | KGetAll =>
-      [IRead (L_props k); IRead L_root; IRead (L_iface k)] ++ handler c ++ handler c
-      ++ [IRUnlock (L_iface k); IRUnlock L_root; reply; IRUnlock (L_props k)]
+      [IRead (L_props k); IRead L_root; IRUnlock L_root; IRead (L_iface k)] ++ handler c ++ handler c
+      ++ [IRUnlock (L_iface k); reply; IRUnlock (L_props k)]
   | KSetMut =>
-      [IRead (L_props k); IRead L_root; IRead (L_iface k); IRUnlock (L_iface k); IWrite (L_iface k)] ++ handler c
-      ++ [IWUnlock (L_iface k); IRUnlock L_root; reply; IRUnlock (L_props k)]
+      [IRead (L_props k); IRead L_root; IRUnlock L_root; IRead (L_iface k); IRUnlock (L_iface k); IWrite (L_iface k)]
+      ++ handler c ++ [IWUnlock (L_iface k); reply; IRUnlock (L_props k)]
   | KIntro =>
       [IRead (L_intro k); IRead L_root; IRead (L_iface k); IRUnlock (L_iface k); IRUnlock L_root; reply; IRUnlock (L_intro k)]
   | KUnknown => [reply]
